@@ -227,6 +227,11 @@ func runC13(c *config) {
 				// a function printed on its own (not through the module) while the module is printed for the first time
 				cls = "func_print_vs_first_module_print"
 			}
+			if strings.Contains(writeSec, "(*Func).AssignIDs") && strings.Contains(writeSec, ").SetID(") &&
+				strings.Contains(readSec, "(*Block).LLString") && !strings.Contains(readSec, "(*Func).LLString") {
+				// a block printed on its own (not through its function) while the function is printed for the first time
+				cls = "block_print_vs_first_func_print"
+			}
 			if reports <= 40 {
 				var frames []string
 				for _, l := range strings.Split(rep, "\n") {
@@ -448,5 +453,23 @@ func c13Child(c *config) {
 		wg.Wait()
 	}
 	o.Stat("kf34_scenarios")
+	// witness scenario of KF-47: a block printed on its own while its never-printed function is printed
+	for i := 0; i < 60; i++ {
+		m := ir.NewModule()
+		f := m.NewFunc("f", types.I32, ir.NewParam("", types.I32))
+		b := f.NewBlock("")
+		x := b.NewAdd(f.Params[0], constant.NewInt(types.I32, 1))
+		b2 := f.NewBlock("")
+		b.NewBr(b2)
+		b2.NewRet(x)
+		var wg sync.WaitGroup
+		start := make(chan struct{})
+		wg.Add(2)
+		go func() { defer wg.Done(); <-start; _ = b.LLString(); _ = b2.LLString() }()
+		go func() { defer wg.Done(); <-start; _ = m.String() }()
+		close(start)
+		wg.Wait()
+	}
+	o.Stat("kf47_scenarios")
 	o.Sample(map[string]interface{}{"goroutines": G, "rounds": rounds})
 }
